@@ -341,8 +341,12 @@ main(int argc, char ** argv)
 			f->out_errno = EPIPE;
 		}
 
-		/* Run with a guard timer (virtual 120 s). */
-		tv.tv_sec = 120;
+		/*
+		 * Run with a guard timer.  Virtual time is free, and a 1.2 MB
+		 * body trickling in at a few bytes per millisecond legitimately
+		 * takes many virtual minutes: 10^6 s.
+		 */
+		tv.tv_sec = 1000000;
 		tv.tv_usec = 0;
 		guard_fired = 0;
 		if ((g = events_timer_register(guard_cb, NULL, &tv)) == NULL)
